@@ -321,7 +321,7 @@ func s1RecvScenario(ses *s1Session, r *rand.Rand, n int, script string) *s1Recv 
 	for _, y := range ses.peer.TakeYielded() {
 		line.Notices = append(line.Notices, rec.Ints(y.Raw))
 	}
-	line.Delivered = cut.TakeDeliveries()
+	line.Delivered = cut.AwaitDeliveries(0, 0, 15*time.Millisecond)
 	line.State = cut.State()
 	line.Alive = !ses.peer.IsClosedByRemote(20*time.Millisecond) && line.State == "S"
 	return line
@@ -505,8 +505,7 @@ func s1OnceScenario(ses *s1Session, r *rand.Rand) *s1Once {
 		line.Expected = append(line.Expected, rec.Ints(whole))
 	}
 	line.Pattern = pat
-	time.Sleep(5 * time.Millisecond)
-	dels := cut.TakeDeliveries()
+	dels := cut.AwaitDeliveries(3, time.Second, 10*time.Millisecond)
 	for _, d := range dels {
 		line.Delivered = append(line.Delivered, d.Body)
 	}
@@ -581,8 +580,7 @@ func s1ContMulti(passive bool) *s1Cont {
 	case <-time.After(3 * time.Second):
 		line.SendResult = "hung"
 	}
-	time.Sleep(5 * time.Millisecond)
-	line.Delivered = ses.cut.TakeDeliveries()
+	line.Delivered = ses.cut.AwaitDeliveries(1, time.Second, 10*time.Millisecond)
 	return line
 }
 
@@ -647,8 +645,7 @@ func s1ContScenario(passive, equip bool) *s1Cont {
 	case <-time.After(3 * time.Second):
 		line.SendResult = "hung"
 	}
-	time.Sleep(5 * time.Millisecond)
-	line.Delivered = ses.cut.TakeDeliveries()
+	line.Delivered = ses.cut.AwaitDeliveries(1, time.Second, 10*time.Millisecond)
 	if line.SendResult == "nil" {
 		line.trace = s1MakeTrace("cont", ses, ses.peer.Events(), 2, []int{1}, []string{"ok"}, line.Delivered)
 	}
@@ -929,7 +926,7 @@ func s1MetScenario(passive, equip bool) *s1Met {
 		}
 	}
 	line.M1 = snapMetrics(cut.Conn)
-	line.Delivered = len(cut.TakeDeliveries())
+	line.Delivered = len(cut.AwaitDeliveries(0, 0, 15*time.Millisecond))
 	// drop, relink, quiescent again
 	ses.raw.Close()
 	if err := ses.connect(); err == nil {
